@@ -175,6 +175,15 @@ def _splice_multi(rng, graph, multi):
     key = n0
     prev_last = graph["nodes"][-1]["key"]
     for c in range(ncopy):
+        if c and rng.random() < 0.5:
+            # a regular residue between two fragments: they are separate connected components of from_itp residues
+            rn0 = graph["nodes"][0]["resname"] if not graph["nodes"][0].get("from_itp") else None
+            if rn0:
+                graph["nodes"].append({"key": key, "resname": rn0, "resid": start})
+                graph["edges"].append((prev_last, key, None))
+                prev_last = key
+                key += 1
+                start += 1
         first = key
         for j, rn in enumerate(multi["resnames"]):
             graph["nodes"].append({"key": key, "resname": rn, "resid": start, "from_itp": multi["name"]})
